@@ -97,11 +97,12 @@ func C05(c *Ctx) {
 	r.Explanation = "(A1) the only route to UndelegateCoinsFromModuleToAccount(enterprise) starts at the CheckLockedUnd ante decorator; (A2) in that decorator the unlock call is guarded (cut-reachability, looking through the detector helpers down to their type assertions) by [tx contains a WRKChain fee-bearing message ∨ a BEACON one] and by a positive locked balance of feeTx.FeePayer(), and receives that payer and feeTx.GetFee(); " +
 		"(A7) the case sets of the tx detectors and of the fee calculators equal the fee-bearing request types of each module's Msg service; (A5) decorator order ValidateBasic < WRKChain fee < BEACON fee < CheckLockedUnd < DeductFee < SigVerification < IncrementSequence; " +
 		"(A2) amount rule: the site undelegating the fee is guarded by ¬hasNeg(locked − fee_d), the site undelegating the whole locked amount by hasNeg(locked − fee_d) ∧ ¬hasNeg(spendable + locked − fee_d), and there is no third site. The mint-route pairing of C04 gives 'completion never raises spendable balance'. Structural necessary conditions; ante rollback on later failure (baseapp) and numeric min(fee, locked) are not decided."
-	r.Rules = []string{"A1.unlock-route", "A2.unlock-guard", "A7.detector-cases", "A7.detector-exhaustive", "A5.decorator-order", "A2.amount-rule", "A3.mint-route-pairing", "A3.lost-update"}
+	r.Rules = []string{"A1.unlock-route", "A2.unlock-guard", "A7.detector-cases", "A7.detector-exhaustive", "A5.decorator-order", "A2.amount-rule", "A3.mint-route-pairing", "A3.lost-update", "A3.stale-element-pointer", "A2.spendable-neutral"}
 	// completing an order never increases the purchaser's spendable balance: what is minted for an order is moved into the
 	// escrow and booked as locked, with the same amount at each step, and no update of the books is dropped on a copy
 	mintRoutePairing(c)
 	lostUpdates(c, "enterprise")
+	spendableNeutral(c)
 	r.Trusted = []string{"baseapp discards ante state when a later decorator fails", "sdk.Coins.SafeSub hasNeg semantics", "bank vesting/delegation bookkeeping"}
 	r.NotDecided = []string{"nested (authz/group/gov) execution of WRKChain/BEACON messages bypasses the ante chain (see C06 known finding K1)", "numeric min(fee, locked)"}
 
@@ -151,6 +152,27 @@ func C05(c *Ctx) {
 			return ok
 		}, 6)
 		r.Require(g2, "A2.unlock-guard", "is-locked|"+k, pos(c, s), "eFUND is unlocked only when the fee payer's stored locked amount is positive", "reachable without that check")
+		// the unlocked eFUND is what pays the fee: DeductFeeDecorator charges the fee granter when the transaction names
+		// one, so the payer's eFUND is unlocked only when no other account is the granter (else it becomes spendable balance
+		// without having been paid as a fee)
+		isGranter := func(x *ir.Expr) bool {
+			x = w.Expand(x, 2)
+			return x.Op == "call" && strings.HasSuffix(x.Name, "FeeTx.FeeGranter")
+		}
+		g3 := w.Guarded(dec, s, func(p ir.Pred) bool {
+			if cmpIs(p, "==", isGranter, func(y *ir.Expr) bool { return y.Op == "const" && y.Name == "nil" }) {
+				return true
+			}
+			if p.Pol && p.E.Op == "call" && strings.HasSuffix(p.E.Name, "AccAddress).Equals") && len(p.E.Args) == 2 {
+				isP := func(x *ir.Expr) bool {
+					x = w.Expand(x, 2)
+					return x.Op == "call" && strings.HasSuffix(x.Name, "FeeTx.FeePayer")
+				}
+				return isGranter(p.E.Args[0]) && isP(p.E.Args[1]) || isGranter(p.E.Args[1]) && isP(p.E.Args[0])
+			}
+			return false
+		}, 6)
+		r.Require(g3, "A2.unlock-guard", "no-granter|"+k, pos(c, s), "eFUND is unlocked only when the fee payer itself pays the fee (feeTx.FeeGranter() is nil or the payer): with a fee granter the SDK deducts the fee from the granter", "reachable for a transaction whose fee another account grants")
 	}
 
 	detectorCases(c)
@@ -472,4 +494,48 @@ func isParamPath(e *ir.Expr) bool {
 		e = e.Args[0]
 	}
 	return e != nil && e.Op == "param"
+}
+
+// spendableNeutral is rule A2.spendable-neutral: completing a purchase order does not route the minted coins through the
+// purchaser's own account with a send followed by DelegateCoinsFromAccountToModule from that account. The bank books such a
+// delegation against the account's *vesting* coins first (TrackDelegation: DelegatedVesting grows by min(amount, vesting -
+// delegated vesting)), so for a purchaser that is a vesting account LockedCoins shrinks by the order amount and as much of
+// its original, still-vesting balance becomes spendable — "completing a purchase order never increases the purchaser's
+// spendable balance" fails for that account kind. (Trusted: the SDK's vesting bookkeeping as of v0.47.)
+func spendableNeutral(c *Ctx) {
+	w, r := c.W, c.R
+	n := 0
+	for _, e := range w.AllEffects(func(e ir.Effect) bool {
+		return e.Method == "DelegateCoinsFromAccountToModule" && ir.ModuleOf(e.Fn) == "enterprise"
+	}) {
+		if !c.Rooted(e.Fn) || w.IsGenerated(e.Fn) {
+			continue
+		}
+		call := e.Call
+		if call == nil || len(call.Common().Args) < 2 {
+			continue
+		}
+		n++
+		args := call.Common().Args
+		delegator := w.ExprOf(args[len(args)-3]).String()
+		// is the delegator the recipient of a send of minted coins in the same function?
+		viaOwn := false
+		isSend := directSites(c, func(x ir.Effect) bool { return x.Method == "SendCoinsFromModuleToAccount" })
+		w.FlatWalk(w.FlatRoot(e.Fn), nil, nil, func(p ir.FPos) bool {
+			if !isSend(p.In) {
+				return true
+			}
+			if sc, ok := p.In.(ssa.CallInstruction); ok {
+				a2 := sc.Common().Args
+				if len(a2) >= 2 && p.Ctx.Apply(w.ExprOf(a2[len(a2)-2])).String() == delegator {
+					viaOwn = true
+				}
+			}
+			return true
+		})
+		r.Require(!viaOwn, "A2.spendable-neutral", fn(e.Fn)+"|delegate-from-purchaser", pos(c, e.Site),
+			"locking the minted coins does not delegate them from the purchaser's own account (for a vesting account the bank counts that delegation against its vesting coins: as much still-vesting balance becomes spendable)",
+			"the minted coins are sent to "+delegator+" and delegated back from that account")
+	}
+	r.Floor("delegations into the enterprise escrow", n, 1)
 }
